@@ -178,6 +178,11 @@ def rule_drain_keeps_live(ctx, c, rule):
         some_edges |= set(cf.variant_edges(sb, ["Some"]))
     for sb in result_switches(cf, T, "CollectCommand", proj=["@Ok", ".0", "@Some", ".0"]):
         cmd_switch = sb
+    if cmd_switch is None:
+        # the command may have been moved into a local before it is matched
+        from .core import first_switches
+        for sb in first_switches(cf, cf.term(T)["target"], lambda i: i.get("kind") == "discr" and i["ty"].endswith("command::CollectCommand")):
+            cmd_switch = sb
     ctx.check(bool(ret_false) and cf.guarded(ret_false, err_edges), rule, cf.path, cf.loc(ret_false[0]) if ret_false else cf.span,
               "a receiver is removed (closure returns false) only when try_recv reported the channel closed",
               "`false` at %s guarded by the Err edge" % [cf.loc(x) for x in ret_false],
